@@ -336,6 +336,13 @@ theorem emit_requires_prev_hop_data (st0 : St) (evs : List Ev) (h0 : Closed st0)
   obtain ⟨ip, hb, sp, d, p, hm, hn⟩ := run_emit _ evs [] st0 (joinsIn_baseOf st0 evs) hinv0 fl c v data dest h
   exact ⟨ip, baseOf_mem hb, sp, d, p, by simpa using hm, hn⟩
 
+/-- `create_cannot_repoint_hop`: a CREATE for a circuit id that already has an exit socket changes nothing — in particular it
+    cannot replace the socket (and with it the hop address the opening test compares against) -/
+theorem create_cannot_repoint_hop (st : St) (ip : Bytes) (port cid : Nat) (s : Sock) (hs : s ∈ st.socks) (hc : s.cid = cid) :
+    step st (.join ip port cid) = (st, []) := by
+  have : st.socks.any (fun x => x.cid == cid) = true := List.any_eq_true.mpr ⟨s, hs, by simp [hc]⟩
+  simp [step, joinStep, this]
+
 /-- `queue_bounded`: the waiting queue of every exit socket stays within the `deque(maxlen=…)` bound of the code -/
 theorem queue_bounded (st : St) (ev : Ev) (h : ∀ s ∈ st.socks, s.queue.length ≤ Gen.QUEUE_MAXLEN) :
     ∀ s ∈ (step st ev).1.socks, s.queue.length ≤ Gen.QUEUE_MAXLEN := step_queue st ev h
